@@ -491,6 +491,22 @@ class RGen:
         nodes = []
         for _ in range(3 + t.pick(9)):
             pool.extend(self.emit(nodes, pool, 0, None))
+        if self.gen >= 4:
+            # version 4: functions nobody calls yet get a call half of the time (models in which every function is in
+            # use, and models in which a function is reachable only through another function, become common)
+            called = {n.op_type for n in nodes if n.domain == "local"}
+            for fn in sorted(self.fn_sigs):
+                if fn not in called and t.pick(2) == 0:
+                    nin, attrs = self.fn_sigs[fn][:2]
+                    kinds = self.fn_sigs[fn][2] if len(self.fn_sigs[fn]) > 2 else ["F23"] * nin
+                    ins = [self.pick_kind(pool, k_) for k_ in kinds]
+                    if any(i is None for i in ins):
+                        continue
+                    kw = {an: ([0.5, 3.0][t.pick(2)] if ty == "f" else [-1, 0][t.pick(2)]) for an, ty, has_default in attrs if not has_default}
+                    out = self.fresh()
+                    nodes.append(oh.make_node(fn, ins, [out], domain="local", name=self.nname(fn), **kw))
+                    pool.append((out, "F23"))
+                    self.features.add("function_call")
         # outputs
         outs = []
         cands = [(v, k) for v, k in pool if k in ("F23", "B23", "I23", "F3", "S", "F43") and not v.startswith(("x", "w", "val_w"))]
